@@ -1003,12 +1003,32 @@ fn mutate(sink: &mut Sink, r: &mut Rng, origin: &str, d: &Doc, b: &Budget, injec
     let fp = forbidden_points();
     let cp = fp[*inject_ix % fp.len()];
     *inject_ix += 1;
-    let chars: Vec<char> = base.chars().collect();
-    let pos = r.below(chars.len() as u64 + 1) as usize;
-    let mut s: String = chars[..pos].iter().collect();
-    s.push(char::from_u32(cp).unwrap());
-    s.extend(chars[pos..].iter());
-    sink.doc(&format!("{}:inject:{}:{}", origin, cp, pos), &s);
+    let cpc = char::from_u32(cp).unwrap();
+    let strings: Vec<usize> = (0..n).filter(|i| d.toks[*i].starts_with('"') && d.toks[*i].len() >= 2).collect();
+    match r.below(4) {
+        // inside a comment or a string the code point is harmless to the token rules: only the screening rejects it
+        0 | 1 => {
+            let i = r.below(n as u64 + 1) as usize;
+            let mut m = d.clone();
+            let c = if r.chance(1, 2) { format!(" /* x{}y */ ", cpc) } else { format!(" // x{}y\n", cpc) };
+            m.gaps[i].push_str(&c);
+            sink.doc(&format!("{}:inject:{}:comment:{}", origin, cp, i), &m.render_checked());
+        }
+        2 if !strings.is_empty() => {
+            let i = *r.pick(&strings);
+            let mut m = d.clone();
+            m.toks[i].insert(1, cpc);
+            sink.doc(&format!("{}:inject:{}:string:{}", origin, cp, i), &m.render_checked());
+        }
+        _ => {
+            let chars: Vec<char> = base.chars().collect();
+            let pos = r.below(chars.len() as u64 + 1) as usize;
+            let mut s: String = chars[..pos].iter().collect();
+            s.push(cpc);
+            s.extend(chars[pos..].iter());
+            sink.doc(&format!("{}:inject:{}:{}", origin, cp, pos), &s);
+        }
+    }
     // unterminated string / comment
     match r.below(4) {
         0 => {
